@@ -206,6 +206,9 @@ pub fn eval(expr: Node) -> Result<f64, Box<dyn error::Error>> {
             for arg in <Vec<Node> as Clone>::clone(&args).into_iter() {
                 results.push(eval(arg)?);
             }
+            if results.iter().any(|x| x.is_nan()) {
+                return Ok(f64::NAN);
+            }
             results.sort_by(|a, b| a.partial_cmp(b).unwrap_or(std::cmp::Ordering::Equal));
             let len = results.len();
             if len % 2 == 0 {
